@@ -634,10 +634,18 @@ class XsdElement(XsdComponent, ParticleMixin,
 
         context.elem = obj
 
+        outer_counters = None
         for identity in self.identities:
-            if identity in context.identities:
+            if identity not in context.identities:
+                context.identities[identity] = identity.get_counter(obj)
+            elif not context.identities[identity].enabled:
                 context.identities[identity].reset(obj)
             else:
+                # A scope element nested in another instance of itself (recursive type):
+                # use a new counter and restore the outer one at the end of the element.
+                if outer_counters is None:
+                    outer_counters = {}
+                outer_counters[identity] = context.identities[identity]
                 context.identities[identity] = identity.get_counter(obj)
 
         if not context.level:
@@ -870,6 +878,9 @@ class XsdElement(XsdComponent, ParticleMixin,
         elif context.level:
             for identity in self.identities:
                 context.identities[identity].enabled = False
+
+        if outer_counters is not None:
+            context.identities.update(outer_counters)
 
         return result
 
